@@ -186,4 +186,20 @@ CLAIMED['C03'] = dict(category='proof',
         'properties. Not decided: binary-flux (VARPOW) power.',
    technique='contract-based deductive verification (proxy execution of the real AssemblyPower methods, exact rational '
              'normaliser, path enumeration); bounded run-time contracts for the Assembly tally and CSV parsing')
+CLAIMED['C09'] = dict(category='proof',
+   text='The real Core.load is executed on symbolic dimensions (outer flat-to-flat, assembly pitch, pin pitches) for '
+        'enumerated layouts and mesh-type assignments; proved for ALL real dimensions: the gap cells around every assembly '
+        'cover its duct perimeter exactly once with positive widths, both assemblies of a shared side see the pitch, '
+        'corner length and cell count of the finer mesh, a shared edge cell has the same width from both sides, the total '
+        'flow area equals a closed form computed from an independent hexagonal-grid model of the layout (so it cannot '
+        'depend on the meshes), areas are positive, the flow is split in proportion to the area and sums to the gap flow, '
+        'centroid distances and conduction constants are symmetric, convection constants are the cell widths. The integer '
+        'topology (cell count, 1-3 bordering assemblies as in the independent model, count-once indexing, adjacency = '
+        'geometric adjacency, symmetric cell adjacency, reversed traversal for the neighbour) is checked by run-time '
+        'contracts on all 127 subsets of the 7-position core x 6 type assignments and on random subsets of 19 / 37 positions.',
+   note=_ASSUME + 'Layout space: the deductive part is per enumerated layout (9 quick / 11 thorough); the topology part is a '
+        'BOUNDED stand-in (exhaustive for 7 positions as the property states, sampled beyond). Gap film coefficients are '
+        'positive atoms.',
+   technique='contract-based deductive verification of Core.load on symbolic dimensions (proxy execution, exact normaliser, '
+             'z3) against an independent layout model; bounded run-time contracts for the integer topology')
 NOT_APPLICABLE = {f'C{i:02d}': 'check not built yet in this round (see DESIGN.md section 12 build order)' for i in range(1, 21)}
